@@ -2,6 +2,7 @@ package main
 
 import (
 	"bytes"
+	"encoding/json"
 	"fmt"
 	"hash/fnv"
 	"net/url"
@@ -27,6 +28,8 @@ import (
 //                 for its accepted entries, per branch; hints = per branch the order of
 //                 goroutine ids read off the observed stream (lets the serial model
 //                 reproduce the stream exactly; the oracle ignores it);
+//                 4th / 5th component: the error-path history (c04_fault.go) and the oversize history
+//                 (c04_big.go) of the case and of the process before it (not looked at by model or oracle);
 //   observation = per branch ((byte stream of each recording sink) aligned).
 // The recording sink is NOT atomic: it appends a Write in several chunks with
 // runtime.Gosched() between them, keeps an in-flight counter (two overlapping
@@ -162,12 +165,19 @@ type c04Op struct {
 	lvl  zapcore.Level
 	msg  string
 	nf   int // number of extra fields
+	// oversize entries (c04_big.go): which part of the entry carries the payload pad (0 = none)
+	big int
+	pad string
 }
 type c04Thread struct {
 	// 0 base, 1 With(fields), 2 Named, 3 With().Named(), 4 shared With-child,
-	// 5 With(Reflect struct), 6 With(Namespace, Any map, Any slice).Named(), 7 With(Reflect) of the shared child
+	// 5 With(Reflect struct), 6 With(Namespace, Any map, Any slice).Named(), 7 With(Reflect) of the shared child,
+	// 8 With(String of more than 16 KiB), 9 With(Reflect of more than 16 KiB) of the shared child (c04_big.go)
 	deriv int
 	ops   []c04Op
+	// pre: not a goroutine of the concurrent phase but a part of the sequential prologue, run by the
+	// main goroutine before the others start (on the wire: a thread like the others)
+	pre bool
 }
 type c04Case struct {
 	br []c04Branch
@@ -228,6 +238,8 @@ func c04enc(j int, b c04Branch) zapcore.Encoder {
 
 func c04derive(base, shared *zap.Logger, g, deriv int) *zap.Logger {
 	switch deriv {
+	case 8, 9:
+		return c04deriveBig(base, shared, g, deriv)
 	case 5:
 		return base.With(zap.Reflect("r", c04reflVal(g, 0, "ctx")), zap.Int("g", g))
 	case 6:
@@ -308,29 +320,36 @@ func c04fields(o c04Op, seq int) []zap.Field {
 	if o.ef != 0 {
 		fs = append(fs, c04errFields(o.ef, seq, c04pad(o.msg, 3))...)
 	}
+	if o.big != 0 {
+		fs = append(fs, c04bigFields(o, seq)...)
+	}
 	return fs
 }
 
 func c04log(l *zap.Logger, o c04Op, seq int) {
 	fs := c04fields(o, seq)
+	msg := o.msg
+	if o.big == c04BigMsg {
+		msg = o.msg + o.pad
+	}
 	switch o.fe {
 	case 0: // level-named front end
 		switch o.lvl {
 		case zapcore.DebugLevel:
-			l.Debug(o.msg, fs...)
+			l.Debug(msg, fs...)
 		case zapcore.InfoLevel:
-			l.Info(o.msg, fs...)
+			l.Info(msg, fs...)
 		case zapcore.WarnLevel:
-			l.Warn(o.msg, fs...)
+			l.Warn(msg, fs...)
 		case zapcore.ErrorLevel:
-			l.Error(o.msg, fs...)
+			l.Error(msg, fs...)
 		default:
-			l.DPanic(o.msg, fs...)
+			l.DPanic(msg, fs...)
 		}
 	case 1:
-		l.Log(o.lvl, o.msg, fs...)
+		l.Log(o.lvl, msg, fs...)
 	case 2:
-		if ce := l.Check(o.lvl, o.msg); ce != nil {
+		if ce := l.Check(o.lvl, msg); ce != nil {
 			ce.Write(fs...)
 		}
 	case 3: // sugared, key-value pairs
@@ -358,11 +377,14 @@ func c04log(l *zap.Logger, o c04Op, seq int) {
 		if o.ef&16 != 0 {
 			kv = append(kv, "ee", c04PanicErr{})
 		}
-		s.Logw(o.lvl, o.msg, kv...)
+		if o.big != 0 {
+			kv = append(kv, c04bigKV(o, seq)...)
+		}
+		s.Logw(o.lvl, msg, kv...)
 	case 4: // sugared, formatted
-		l.Sugar().Logf(o.lvl, "%s", o.msg)
+		l.Sugar().Logf(o.lvl, "%s", msg)
 	default: // sugared, Sprint
-		l.Sugar().Log(o.lvl, o.msg)
+		l.Sugar().Log(o.lvl, msg)
 	}
 }
 
@@ -373,7 +395,12 @@ type c04RefEntry struct {
 	lines [][]byte
 }
 
-func c04reference(cs *c04Case) [][]c04RefEntry {
+// Every entry is logged TWICE in a row: the expected line must be a function of the entry, the
+// logger's context and the encoder configuration -- not of what the process logged before (the
+// reference shares zap's pools with everything else in the process, so a buffer that comes back
+// from a pool in a bad state would otherwise corrupt the expected line and the observed one alike).
+// Two different lines for one entry are reported as a direct observation.
+func c04reference(cs *c04Case) (ref [][]c04RefEntry, unstable []string) {
 	nb := len(cs.br)
 	bufs := make([]*bytes.Buffer, nb)
 	cores := make([]zapcore.Core, nb)
@@ -401,12 +428,34 @@ func c04reference(cs *c04Case) [][]c04RefEntry {
 					any = true
 				}
 			}
+			// a line of the JSON encoder is one JSON document (whatever the entry carries: failing
+			// marshalers and reflection failures are reported inside the document)
+			for j, ln := range e.lines {
+				if !cs.br[j].console && len(ln) > 0 && len(unstable) < 3 && !(ln[len(ln)-1] == '\n' && json.Valid(ln[:len(ln)-1])) {
+					unstable = append(unstable, fmt.Sprintf("a sequential logger wrote a line that is not a JSON document (thread %d, op %d, branch %d, %d bytes: %.60q ... %.60q)",
+						g, seq, j, len(ln), ln, ln[len(ln)-c04min(len(ln), 60):]))
+				}
+			}
+			for _, b := range bufs {
+				b.Reset()
+			}
+			c04log(l, o, seq)
+			for j, b := range bufs {
+				if !bytes.Equal(b.Bytes(), e.lines[j]) && len(unstable) < 3 {
+					d := 0
+					for d < b.Len() && d < len(e.lines[j]) && b.Bytes()[d] == e.lines[j][d] {
+						d++
+					}
+					unstable = append(unstable, fmt.Sprintf("a sequential logger wrote two different lines for the same entry logged twice in a row (thread %d, op %d, branch %d: %d and %d bytes, first difference at byte %d: %.40q / %.40q)",
+						g, seq, j, len(e.lines[j]), b.Len(), d, e.lines[j][d:], b.Bytes()[d:]))
+				}
+			}
 			if any {
 				out[g] = append(out[g], e)
 			}
 		}
 	}
-	return out
+	return out, unstable
 }
 
 // ---------------------------------------------------------------- concurrent run
@@ -512,6 +561,31 @@ func c04run(cs *c04Case, caseNo int) *c04Obs {
 	stopTicks := make(chan struct{})
 	var panics atomic.Int32
 	var panicMsg atomic.Value
+	// the sequential prologue of judged entries (threads with pre = true), in thread order
+	func() {
+		defer func() {
+			if x := recover(); x != nil {
+				panics.Add(1)
+				panicMsg.Store(fmt.Sprint(x))
+			}
+		}()
+		for g := range cs.th {
+			if !cs.th[g].pre {
+				continue
+			}
+			l := c04derive(base, shared, g, cs.th[g].deriv)
+			for seq, o := range cs.th[g].ops {
+				switch o.kind {
+				case 1:
+					_ = l.Sync()
+				case 2:
+					noteF(c04faultOp(lives[o.f.fl], o.f, g, seq))
+				default:
+					c04log(l, o, seq)
+				}
+			}
+		}
+	}()
 	for k := range flt.conc {
 		wg.Add(1)
 		go func(k int) {
@@ -526,6 +600,9 @@ func c04run(cs *c04Case, caseNo int) *c04Obs {
 		}(k)
 	}
 	for g := range cs.th {
+		if cs.th[g].pre {
+			continue
+		}
 		wg.Add(1)
 		go func(g int) {
 			defer wg.Done()
@@ -681,7 +758,7 @@ func c04kindSx(b c04Branch) SX {
 }
 
 func c04emit(c *Ctx, cs *c04Case, caseNo int) {
-	ref := c04reference(cs)
+	ref, unstable := c04reference(cs)
 	nb := len(cs.br)
 	// input
 	cfg := make([]SX, nb)
@@ -739,14 +816,20 @@ func c04emit(c *Ctx, cs *c04Case, caseNo int) {
 	threads = append(threads, tickThreads...)
 	// a crash of the process (e.g. a panic in BufferedWriteSyncer's own flushLoop goroutine)
 	// cannot be recovered here: leave the case on disk for the parent process
+	// 5th component: the oversize history (c04_big.go) -- how many lines of more than 16 KiB the
+	// process had delivered before this case (the pools keep the buffers those grew) and the largest,
+	// the number of such lines in this case, and which threads form the sequential prologue
+	bigHist := c04bigHistSx(cs, ref)
 	if cur := os.Getenv("C04_CUR"); cur != "" {
-		_ = os.WriteFile(cur, []byte(fmt.Sprintf("%d\t%s\t%s", caseNo, cs.class, Render(L(L(cfg...), L(threads...), L(), c04faultsSx(cs, c04Injected.Load()))))), 0o644)
+		_ = os.WriteFile(cur, []byte(fmt.Sprintf("%d\t%s\t%s", caseNo, cs.class, Render(L(L(cfg...), L(threads...), L(), c04faultsSx(cs, c04Injected.Load()), bigHist)))), 0o644)
 	}
 	// 4th component of the input: the error-path history of this case and the number of error-path
 	// events provoked in this process before it (model and spec do not look at it: C04_bystanders)
 	faults := c04faultsSx(cs, c04Injected.Load())
 	errsBefore := c04Injected.Load()
+	bigsBefore, bigMaxBefore := c04BigsSeen, c04BigMaxSeen
 	obs := c04run(cs, caseNo)
+	c04bigNote(ref)
 	// observation + hints
 	hints := make([]SX, nb)
 	ob := make([]SX, nb)
@@ -775,8 +858,8 @@ func c04emit(c *Ctx, cs *c04Case, caseNo int) {
 		}
 		hints[j] = LI(h)
 	}
-	input := L(L(cfg...), L(threads...), L(hints...), faults)
-	for _, v := range obs.viol {
+	input := L(L(cfg...), L(threads...), L(hints...), faults, bigHist)
+	for _, v := range append(unstable, obs.viol...) {
 		c.Viol(v+" ["+cs.class+"]", input)
 	}
 	if obs.timeout {
@@ -801,7 +884,8 @@ func c04emit(c *Ctx, cs *c04Case, caseNo int) {
 	}
 	c.Emit(input, L(ob...), map[string]string{"nt": nt, "class": cs.class, "g": fmt.Sprint(len(cs.th)),
 		"lines": fmt.Sprint(totalLines), "maxline": fmt.Sprint(maxLine), "bigger": big, "syncs": fmt.Sprint(syncOps), "ticks": fmt.Sprint(cs.ticks),
-		"refl":  fmt.Sprintf("%d%d%v", cs.baseCtx, cs.sharedCtx, cs.usesRefl()),
+		"refl": fmt.Sprintf("%d%d%v", cs.baseCtx, cs.sharedCtx, cs.usesRefl()),
+		"bigs": fmt.Sprint(cs.bigs()), "pre": cs.preTag(), "bigs_before": fmt.Sprint(bigsBefore), "bigmax_before": fmt.Sprint(bigMaxBefore),
 		"fault": cs.faultTag(), "errs_before": fmt.Sprint(errsBefore), "errs_in_case": fmt.Sprint(c04Injected.Load() - errsBefore)})
 	c.out.Flush()
 }
@@ -822,6 +906,13 @@ func (cs *c04Case) usesRefl() bool {
 		}
 	}
 	return false
+}
+
+func c04min(a, b int) int {
+	if a < b {
+		return a
+	}
+	return b
 }
 
 func c04isAccepted(o c04Op) bool { return o.kind == 0 && o.lvl >= zapcore.InfoLevel }
@@ -1024,15 +1115,23 @@ func c04child(c *Ctx) {
 	}
 	from, _ := strconv.Atoi(os.Getenv("C04_FROM"))
 	r := NewRNG(c.Seed)
+	// the oversize entries draw from a stream of their own: what they are added to is the case
+	// the seed generated before they existed
+	rb := NewRNG(c.Seed*0x9E3779B97F4A7C15 + 0xC04B16)
 	caseNo := 0
-	emit := func(cs *c04Case) {
-		cs.seed = r.Next()
+	var emitR func(cs *c04Case, rr *RNG)
+	emit := func(cs *c04Case) { emitR(cs, r) }
+	emitR = func(cs *c04Case, rr *RNG) {
+		cs.seed = rr.Next()
 		cs.class = c04className(cs.br)
 		if cs.usesRefl() {
 			cs.class += "/refl"
 		}
 		if cs.hasFaults() {
 			cs.class += "/fault"
+		}
+		if cs.bigs() > 0 {
+			cs.class += "/big"
 		}
 		if caseNo >= from {
 			c04emit(c, cs, caseNo)
@@ -1241,12 +1340,16 @@ func c04child(c *Ctx) {
 			}
 		}
 	}
+	// 1d. directed: oversize entries (c04_big.go)
+	c04bigGrid(c, rb, emitR)
 	// 2. seeded random configurations
 	N := 800
 	budget := 4000
+	bigPct := 6 // share of the random cases that get oversize entries on top (c04_big.go)
 	if c.Thorough {
 		N = 12000
 		budget = 12000
+		bigPct = 2 // the case file is linear in the oversize bytes
 	}
 	for i := 0; i < N; i++ {
 		nb := 1
@@ -1313,6 +1416,14 @@ func c04child(c *Ctx) {
 		}
 		if r.Chance(35) {
 			c04genFaults(r, cs) // error-path history around (and inside) the judged loggers
+		}
+		if rb.Chance(bigPct) {
+			// oversize entries on top of whatever the case is: prologue / every 16th / dedicated / oversize context
+			maxClass := []int{0, 0, 0, 0, 0, 0, 1, 1, 1, 2}[rb.Intn(10)]
+			if maxClass == 2 && (nb > 1 || br[0].k > 1) {
+				maxClass = 1
+			}
+			c04oversize(rb, cs, 1+rb.Intn(15), maxClass, []int{5, 3, 2}[maxClass], ws)
 		}
 		emit(cs)
 	}
